@@ -76,6 +76,10 @@ def payloads(rng, tier):
     # ... and with progress output switched on (every order: the progress path may be written differently)
     for k in range(1, {"quick": 8, "thorough": 9, "search": 8}[tier] + 1):
         yield "complete_big", {"k": k, "verbose": 1}
+    # calling conventions: the same questions asked positionally, by keyword, and by keyword in the other order, interleaved with
+    # the transposed question (current and observed_length exchanged) -- every answer must be the formula's
+    for _ in range({"quick": 40, "thorough": 400, "search": 40}[tier]):
+        yield "conventions", {"k": rng.randint(1, 6), "v": rng.randint(0, 6), "seed": rng.randrange(1 << 30)}
     # the functions must still be right after graphs have been generated in the same process (shared / cached state)
     for _ in range({"quick": 12, "thorough": 120, "search": 6}[tier]):
         k = rng.randint(1, 4)
@@ -102,6 +106,42 @@ def build(stream, p):
         return Case(stream, p, None, lambda: guard(run_big, lambda r: [[int(r)]], seconds=300),
                     lambda a, r: None if r is True else "complete accessor of order %d%s is not the shift-successor table: %r" % (k, " (verbose)" if p.get("verbose") else "", r),
                     domain=True, nontrivial=True, tags=["k=%d" % k])
+    if stream == "conventions":
+        def run_conv():
+            import random as pyrandom
+            r = pyrandom.Random(p["seed"])
+            a, b = p["k"], p["v"]
+            problems = []
+            for _ in range(12):
+                x, y = r.choice([(a, b), (b, a), (a, a), (b, b)])        # current = x, observed_length = y
+                if y < 1:
+                    continue
+                fn = r.choice(["obtain_latters", "obtain_formers"])
+                how = r.choice(["pos", "kw", "kw_rev", "mixed"])
+                f = getattr(dsw, fn)
+                if how == "pos":
+                    got = f(x, y)
+                elif how == "kw":
+                    got = f(current=x, observed_length=y)
+                elif how == "kw_rev":
+                    got = f(observed_length=y, current=x)
+                else:
+                    got = f(x, observed_length=y)
+                n = 4 ** y
+                want = [(4 * x + j) % n for j in range(4)] if fn == "obtain_latters" else [x // 4 + j * (n // 4) for j in range(4)]
+                if [int(t) for t in got] != [int(t) for t in want]:
+                    problems.append("%s(current=%d, observed_length=%d) called %s gave %r, the formula gives %r" % (fn, x, y, how, list(got), want))
+            # ... and what the graph builders compute afterwards in the same process must be what a fresh process computes
+            for y in sorted({t for t in (a, b) if 1 <= t <= 4}):
+                n = 4 ** y
+                comp = np.asarray(dsw.get_complete_accessor(observed_length=y), dtype=np.int64)
+                want = (4 * np.arange(n, dtype=np.int64).reshape(-1, 1) + np.arange(4, dtype=np.int64).reshape(1, -1)) % n
+                if comp.shape != want.shape or not bool((comp == want).all()):
+                    problems.append("get_complete_accessor(%d) after these calls is not the shift-successor table" % y)
+            return problems
+        return Case(stream, p, None, lambda: guard(run_conv, lambda r: [[len(r)]]),
+                    lambda a, r: ("raised %r" % (r,)) if isinstance(r, BaseException) else (r[0] if r else None),
+                    domain=True, nontrivial=True, tags=["conventions"])
     if stream == "after_generation":
         def run_after():
             mask = np.array(p["mask"], dtype=int)
